@@ -1,11 +1,11 @@
 CONSTANTS
-  Threads <- ThreadsDef
-  Inputs <- InputsDef
+  Threads <- ThreadsMemoDef
+  Inputs <- InputsMemoDef
   CAP = 2
   Garbage <- GarbageDef
   SharedScratch = FALSE
   LenBeforeWrite = FALSE
-  Memo = "none"
+  Memo = "global"
 SPECIFICATION Spec
 INVARIANT Pure
 INVARIANT PeekPure
